@@ -183,6 +183,9 @@ func rnd(r *sx.Rng, n int) []byte {
 
 func noise(r *sx.Rng, out *[]revent, heavy bool) {
 	k := r.Intn(3)
+	if heavy {
+		k = r.Intn(6)
+	}
 	for i := 0; i < k; i++ {
 		c := r.Intn(100)
 		switch {
@@ -190,8 +193,11 @@ func noise(r *sx.Rng, out *[]revent, heavy bool) {
 			*out = append(*out, revent{kind: "msg", ty: uint16(1300 + r.Intn(30)), seq: 0, data: rnd(r, r.Intn(40))})
 		case c < 85:
 			n := 1 + r.Intn(3)
-			if heavy && r.Chance(1, 3) {
-				n = 9
+			if heavy && r.Chance(1, 2) {
+				n = 1 + r.Intn(9)
+				if r.Chance(1, 3) {
+					n = 9
+				}
 			}
 			for j := 0; j < n; j++ {
 				*out = append(*out, revent{kind: "err", errno: 4})
